@@ -108,7 +108,19 @@ static Desc makeDesc(Rng& r, long id, bool bodyAllowed)
 	// the request target as a user of the library builds it: Url::encode(component) per segment / key / value
 	std::string t;
 	if (d.segs.empty()) t = "/";
-	for (size_t i = 0; i < d.segs.size(); i++) t += "/" + stdstr(Url::encode(String(d.segs[i].c_str()), true));
+	// two spellings a user may send: Url::encode(component) per segment, or only what a path segment must escape
+	bool lite = r.chance(40);
+	for (size_t i = 0; i < d.segs.size(); i++)
+	{
+		if (!lite) { t += "/" + stdstr(Url::encode(String(d.segs[i].c_str()), true)); continue; }
+		t += "/";
+		for (size_t k = 0; k < d.segs[i].size(); k++)
+		{
+			unsigned char ch = (unsigned char)d.segs[i][k];
+			if (isalnum(ch) || strchr("-._~!$&'()*+,;=:@", ch)) t += (char)ch;
+			else { char b[8]; snprintf(b, sizeof b, "%%%02X", ch); t += b; }
+		}
+	}
 	for (size_t i = 0; i < d.query.size(); i++)
 		t += std::string(i ? "&" : "?") + stdstr(Url::encode(String(d.query[i].first.c_str()), true)) + "=" + stdstr(Url::encode(String(d.query[i].second.c_str()), true));
 	d.target = t;
